@@ -11,6 +11,12 @@ Tie:   (a) translator harness/translate/c14_tags.py -> Gen_Tags.v (tags, flags, 
            the decoded description (repo's own parse vs. model parse) are compared exactly;
        monitors: faithfulness (decoded == type), per-run id -> stream functionality and
        id injectivity on the real outputs.
+       call sequences: several StateSerializerFactory.make() / make_compilation_config_serializer /
+       describe_params calls on ONE real factory (per-protocol cached Context + Context.derive());
+       the model describes every call on a COPY of the prepared state (Model.make_state), so any
+       aliasing / growth / stale positions in the real reuse path is a model-vs-implementation
+       disagreement; monitors: fresh factory == Nth reuse, equal inputs => identical bytes+id,
+       cached context untouched, decoded state shape == expected, field names.
 Tier:  this is the sertypes tier; the EdgeQL compiler is not run (needs the std schema).
 """
 from __future__ import annotations
@@ -454,6 +460,11 @@ def parse_case(line):
         return {'kind': 'I', 'pv': pv, 'ty': p_ty(k)}
     if kind == 'X':
         return {'kind': 'X', 'pv': k.next(), 'hex': k.next()}
+    if kind == 'S':
+        toks = line.split(' ')
+        ms = [toks[j + 1] for j, t in enumerate(toks) if t == 'M' and j + 1 < len(toks) and toks[j + 1][:1].isdigit()]
+        reuse = len(ms) - len(set(ms))
+        return {'kind': 'S', 'calls': int(toks[1]), 'reuse': reuse}
     raise ValueError(kind)
 
 
@@ -774,6 +785,114 @@ def gen_family(rnd, odd=False, maxdepth=4):
     return lines, kinds
 
 
+# ---------------------------------------------------------------- call sequences (context reuse)
+
+SETTING_POOL = [('allow_bare_ddl', 'str', False, False, False), ('query_timeout', 'int64', False, True, False),
+                ('apply_policies', 'bool', False, True, False), ('tags', 'str', True, False, False),
+                ('listen_port', 'int64', False, False, True), ('simple_scoping', 'bool', False, True, False),
+                ('ids', 'int64', True, True, False)]
+GLOBAL_NAMES = ['g1', 'g2', 'cur_user', 'tenant', 'flags', 'limits']
+
+
+def gen_sequence(rnd):
+    """S case: several StateSerializerFactory.make() calls (same / different user schemas, same /
+    different protocol versions, exact repeats) on ONE factory, interleaved with the compilation
+    config serializer and describe_params"""
+    settings = rnd.sample(SETTING_POOL, rnd.randint(1, 5))
+
+    def gty(d=2):
+        x = rnd.random()
+        sc = ('s', rnd.choice([STD['str'], STD['int64'], STD['bool'], STD['float64'], STD['json']]))
+        if d <= 0 or x < 0.55:
+            return sc
+        if x < 0.8:
+            el = gty(d - 1)
+            if el[0] == 'a':
+                el = ('t', False, False, '', [('0', el)])
+            return ('a', False, '', el)
+        k = rnd.randint(1, 3)
+        named = rnd.random() < 0.4
+        nms = rnd.sample(['a', 'b', 'c', 'x'], k) if named else [str(i) for i in range(k)]
+        return ('t', named, False, '', [(n, gty(d - 1)) for n in nms])
+
+    def mcall(pv):
+        gl = [(n, rnd.random() < 0.3, rnd.random() < 0.2, gty())
+              for n in rnd.sample(GLOBAL_NAMES, rnd.choice([0, 1, 1, 2, 3]))]
+        ex = [(n, rnd.choice(['str', 'int64', 'bool']), rnd.random() < 0.3)
+              for n in rnd.sample(['opt', 'level', 'names'], rnd.choice([0, 0, 1, 2]))]
+        return ('M', pv, gl, ex)
+    main_pv = rnd.choice(['1.0', '2.0', '2.0', '3.0'])
+    calls = []
+    for _ in range(rnd.randint(2, 6)):
+        x = rnd.random()
+        ms = [c for c in calls if c[0] == 'M']
+        if ms and x < 0.3:
+            calls.append(rnd.choice(ms))                              # exact repeat
+        elif ms and x < 0.4:
+            c = rnd.choice(ms)
+            calls.append(('M', rnd.choice(['1.0', '2.0', '3.0']), c[2], c[3]))   # same schema, other version
+        elif x < 0.5:
+            calls.append(('K',))
+        elif x < 0.6:
+            pc = [c for c in calls if c[0] == 'P']
+            if pc and rnd.random() < 0.4:
+                calls.append(rnd.choice(pc))                          # exact repeat of a describe_params call
+            else:
+                k = rnd.randint(0, 3)
+                calls.append(('P', rnd.choice(['1.0', '2.0']),
+                              [(str(i), rnd.random() < 0.5, gty(1)) for i in range(k)]))
+        else:
+            calls.append(mcall(main_pv if rnd.random() < 0.8 else rnd.choice(['1.0', '2.0', '3.0'])))
+    return enc_sequence(settings, calls), (settings, calls)
+
+
+def enc_sequence(settings, calls):
+    out = [f'S {len(settings)}'] + [f'{hx(n)} {k} {b01(so)} {b01(af)} {b01(sy)}' for n, k, so, af, sy in settings]
+    out.append(str(len(calls)))
+    for c in calls:
+        if c[0] == 'M':
+            _, pv, gl, ex = c
+            out.append(f'M {pv} {len(gl)}' + ''.join(f' {hx(n)} {b01(r)} {b01(m)} {e_ty(t)}' for n, r, m, t in gl)
+                       + f' {len(ex)}' + ''.join(f' {hx(n)} {k} {b01(m)}' for n, k, m in ex))
+        elif c[0] == 'K':
+            out.append('K')
+        else:
+            _, pv, ps = c
+            out.append(f'P {pv} {len(ps)}' + ''.join(f' {hx(n)} {b01(r)} {e_ty(t)}' for n, r, t in ps))
+    return ' '.join(out)
+
+
+def shrink_sequence(seq, still_fails):
+    """drop calls, then globals / extension properties / settings, while the failure persists"""
+    settings, calls = seq
+    changed = True
+    while changed:
+        changed = False
+        cands = []
+        for i in range(len(calls)):
+            if len(calls) > 1:
+                cands.append((settings, calls[:i] + calls[i + 1:]))
+        for i, c in enumerate(calls):
+            if c[0] == 'M':
+                for j in range(len(c[2])):
+                    cands.append((settings, calls[:i] + [('M', c[1], c[2][:j] + c[2][j + 1:], c[3])] + calls[i + 1:]))
+                for j in range(len(c[3])):
+                    cands.append((settings, calls[:i] + [('M', c[1], c[2], c[3][:j] + c[3][j + 1:])] + calls[i + 1:]))
+        for i in range(len(settings)):
+            if len(settings) > 1:
+                cands.append((settings[:i] + settings[i + 1:], calls))
+        cands = cands[:60]
+        if not cands:
+            break
+        fl = still_fails([enc_sequence(*c) for c in cands])
+        for c, f in zip(cands, fl):
+            if f:
+                settings, calls = c
+                changed = True
+                break
+    return enc_sequence(settings, calls)
+
+
 def corpus():
     p = os.path.join(lib.VERIF, 'corpus', PROP)
     out = []
@@ -799,6 +918,11 @@ def split_impl(r):
     case, res, pr = parts[0], parts[1], parts[2]
     bad = [p[1:] for p in parts[3:] if p.startswith('!')]
     return case, res, pr, bad
+
+
+def norm_parse(pr):
+    """the model does not distinguish Python exception classes in parse(): 'err X' -> 'err'"""
+    return ' ; '.join('err' if x.startswith('err') else x for x in pr.split(' ; '))
 
 
 def translate():
@@ -1025,6 +1149,7 @@ def run(tier):
 
     rnd = lib.rng('C14')
     n_fam, n_single, n_par, n_inp, n_x = (650, 900, 450, 150, 3) if not thorough else (9000, 14000, 6000, 2500, 4)
+    n_seq = 250 if not thorough else 3000
     # ---- cases: corpus first
     lines = []         # generated case lines
     meta = []          # (family index or None, mutation kind)
@@ -1050,6 +1175,12 @@ def run(tier):
     for k in range(n_inp):
         lines.append(gen_input(rnd)[0])
         meta.append((None, 'input'))
+    seqs = {}
+    for k in range(n_seq):
+        ln, sq = gen_sequence(rnd)
+        seqs[len(lines)] = sq
+        lines.append(ln)
+        meta.append((None, 'sequence'))
 
     impl = run_impl(lines)
     obs = [split_impl(r) for r in impl]
@@ -1058,7 +1189,7 @@ def run(tier):
     xr = lib.rng('C14x')
     xlines = []
     for (case, res, pr, bad) in obs:
-        if res.startswith('ok ') and xr.random() < (0.4 if not thorough else 0.7):
+        if res.startswith('ok ') and not case.startswith('S ') and xr.random() < (0.4 if not thorough else 0.7):
             pv = case.split(' ')[1]
             h = res.split(' ')[1]
             data = b'' if h == '-' else bytes.fromhex(h)
@@ -1068,7 +1199,7 @@ def run(tier):
     ximpl = [split_impl(r) for r in run_impl(xlines)] if xlines else []
 
     model = xmodel = None
-    idx_model = [i for i, o in enumerate(obs) if not o[1].startswith('skip')]
+    idx_model = [i for i, o in enumerate(obs) if not o[1].startswith('skip') and ' ?' not in o[0]]
     if exe:
         model = dict(zip(idx_model, run_model(exe, [obs[i][0] for i in idx_model])))
         xmodel = run_model(exe, xlines) if xlines else []
@@ -1123,8 +1254,7 @@ def run(tier):
         for i in idx_model:
             case, res, pr, bad = obs[i]
             mr, mp = model[i].split('\t')
-            prn = pr if not pr.startswith('err') else 'err'
-            if (mr, mp) != (res, prn):
+            if (mr, mp) != (res, norm_parse(pr)):
                 mism.append(('case', i))
         for k, (x, m) in enumerate(zip(ximpl, xmodel)):
             pr = x[2]
@@ -1137,7 +1267,7 @@ def run(tier):
     n_coq = 0
     if model is not None:
         cr = lib.rng('C14coq')
-        pool = [i for i in idx_model if len(obs[i][0]) < 6000]
+        pool = [i for i in idx_model if len(obs[i][0]) < 6000 and not obs[i][0].startswith('S ')]
         sample = sorted(cr.sample(pool, min(40 if not thorough else 300, len(pool))))
         xs = sorted(cr.sample(range(len(xlines)), min(15 if not thorough else 100, len(xlines)))) if xlines else []
         exprs = []
@@ -1169,8 +1299,11 @@ def run(tier):
         return [split_impl(r) for r in run_impl(ls)]
 
     for i, bad in mon_fail[:3]:
-        first = bad[0]
-        small = shrink_case(obs[i][0], lambda ls: [first in o[3] for o in impl_flags(ls)]) or lines[i]
+        first = bad[0].split(':')[0]
+        if i in seqs:
+            small = shrink_sequence(seqs[i], lambda ls: [any(x.startswith(first) for x in o[3]) for o in impl_flags(ls)])
+        else:
+            small = shrink_case(obs[i][0], lambda ls: [first in o[3] for o in impl_flags(ls)]) or lines[i]
         so = impl_flags([small])[0]
         rep.violation(f'monitor {bad} failed on the real sertypes output',
                       {'case': small, 'original_case': lines[i], 'impl_result': so[1][:2000],
@@ -1209,8 +1342,7 @@ def run(tier):
                     ms_ = run_model(exe, [o[0] for o in os_])
                     out = []
                     for o, m in zip(os_, ms_):
-                        prn = o[2] if not o[2].startswith('err') else 'err'
-                        out.append(not o[1].startswith('skip') and tuple(m.split('\t')) != (o[1], prn))
+                        out.append(not o[1].startswith('skip') and tuple(m.split('\t')) != (o[1], norm_parse(o[2])))
                     return out
                 small = shrink_case(obs[k][0], differs) or lines[k]
                 so = impl_flags([small])[0]
@@ -1233,6 +1365,7 @@ def run(tier):
 
     # ---- evidence
     distinct = set()
+    nseq_calls = nseq_reuse = 0
     depths = {}
     kinds = {}
     pvs = {}
@@ -1245,6 +1378,12 @@ def run(tier):
         try:
             c = parse_case(case)
         except Exception:      # noqa
+            continue
+        if c['kind'] == 'S':
+            nseq_calls += c['calls']
+            nseq_reuse += c['reuse']
+            if c['calls'] >= 2:
+                distinct.add(case)
             continue
         pvs[c['pv']] = pvs.get(c['pv'], 0) + 1
         if c['kind'] == 'P':
@@ -1277,8 +1416,12 @@ def run(tier):
                 '(named) tuples, arrays, ranges, multiranges, object shapes with properties/links/link '
                 'properties/implicit ids/polymorphic sources, free objects; families = a root type plus '
                 'one-step variations over the same environment; describe_params lists; input shapes; '
+                'call SEQUENCES on one real StateSerializerFactory (make() with generated globals / extension '
+                'configs / settings, repeats, other protocol versions, compilation-config serializer and '
+                'describe_params in between) checked against a fresh factory, the model (prepared context '
+                'copied per call) and the expected state shape; '
                 'malformed streams = byte-level mutations of real streams and cross-protocol re-parses. '
-                'non-trivial = describe/params/input case of nesting depth >= 2; distinct = distinct '
+                'non-trivial = describe/params/input case of nesting depth >= 2, or a sequence of >= 2 calls; distinct = distinct '
                 'observed case line (term as re-read from the real schema objects)',
         'exhaustive': False,
         'samples': [lines[i][:600] for i in (0, len(lines) // 3, len(lines) // 2, len(lines) - 1)] +
@@ -1287,6 +1430,8 @@ def run(tier):
         'model_vs_impl_disagreements': len(mism),
         'coq_vm_compute_cross_checked': n_coq,
         'monitor_failures': len(mon_fail),
+        'sequence_cases': n_seq, 'sequence_calls_total': nseq_calls,
+        'sequence_make_calls_on_an_already_prepared_context': nseq_reuse,
         'family_pairs_checked': pairs_checked,
         'family_pairs_with_equal_ids': same_id_pairs,
         'family_violations': len(fam_viol),
@@ -1325,6 +1470,9 @@ def run(tier):
             'harness/rt/vrt.py stub installer (turbo_uuid stand-in = uuid.UUID subclass)',
             'SHA-1 / uuid5: modelled concretely in Gallina (compared bit-for-bit with hashlib on every hashed id); '
             'collision- and cycle-freedom on the strings hashed for the types at hand is a HYPOTHESIS of the id theorems',
+            'Context.derive()/cached per-protocol contexts: modelled as value copy (Model.make_state: every make() '
+            'starts from the same prepared state); no theorem is stated about make_state, it is tied by '
+            'correspondence + monitors on call sequences',
             'modelled, not verified: edb.schema accessors (get_name, get_ancestors, material_type, get_is_persistent, '
             'view_shapes contents) are inputs of the model (read off the real objects), the compiler that produces '
             'them is not run; Python dict semantics of parse() results; struct/BinWrapper; bytes.decode("utf-8")',
